@@ -10,6 +10,7 @@
 //         "E <result>" per epilog op, "STEPS <tid> <n>", "FIRED <n>", then one observation block ("." terminated);
 //         the fork-server parent adds "STATUS <exit> <signal>".
 #define HSIM_NO_MAIN
+#include <sys/resource.h>
 #include "../handlesim/hsim.cpp"
 #include "simrt.hpp"
 
@@ -98,6 +99,9 @@ int main(int argc, char **argv) {
     fflush(stdout);
     pid_t pid = fork();
     if (pid == 0) {
+      // a run takes well under a second: sixty seconds of CPU time mean it does not terminate (SIGXCPU -> "hang")
+      struct rlimit rl; rl.rlim_cur = 60; rl.rlim_max = 62;
+      setrlimit(RLIMIT_CPU, &rl);
       runScenario(nthreads, prolog, epilog, switches, trace != 0, traceFile, first);
       fflush(stdout);
       _exit(0);
